@@ -7,7 +7,7 @@
    callers, transmitters of every family, SetCloseDeadline, token-reader
    probes, Serve, the peer with any script, the deadline timer) and over every
    schedule, i.e. every interleaving of their operations. *)
-From XV Require Import lib.Bytes lib.Lts gen.SessClose C10.Model C10.Inv C10.Proofs C10.Closers
+From XV Require Import lib.Bytes lib.Lts gen.SessClose gen.Serve C10.Model C10.Inv C10.Proofs C10.Closers
   C10.Transmit C10.InLock C10.StateLock C10.Progress C10.Deadline C10.Refute C10.Tables C10.Spec.
 
 (* Clause 1.  In every reachable state the wire holds at most one closing tag;
@@ -210,7 +210,9 @@ Print Assumptions C10_stream_error_flushed_partial.
    writes <close/>), the negotiator records the framing on the session and the
    stream reader takes the peer's <close/> for the end of the stream — which is
    what lets IClose / PClose stand for <close/> on such sessions; and no call
-   that can block sits inside a critical section of the state mutex. *)
+   that can block sits inside a critical section of the state mutex; Serve tells
+   the peer's close by err == io.EOF (identity: errors that wrap io.EOF are
+   handler errors) and reads the input context in force at every turn. *)
 Theorem C10_source_tables :
   sc_out_lockers = map str ["Session.Close"; "Session.Encode"; "Session.EncodeElement";
                             "Session.TokenWriter"; "Session.sendError"; "send"]%string /\
@@ -225,6 +227,7 @@ Theorem C10_source_tables :
    sc_setclosedeadline_cancels_previous = true /\ sc_setclosedeadline_zero_is_no_deadline = true) /\
   (sc_send_records_opening_element = true /\ sc_negotiator_records_ws = true /\
    sc_reader_ws_close_is_eof = true) /\
-  sc_statelock_blocking_calls = [].
+  sc_statelock_blocking_calls = [] /\
+  (sv_serve_eof_identity = true /\ sc_serve_reads_context_every_turn = true).
 Proof. exact source_tables. Qed.
 Print Assumptions C10_source_tables.
